@@ -1,4 +1,5 @@
 import Dyce.Model
+import Dyce.AggModel
 import Dyce.LemmaA
 import Dyce.KaronenMain
 import Mathlib.Data.Rat.Defs
@@ -12,23 +13,7 @@ namespace Dyce
 
 variable {α : Type} [DecidableEq α]
 
-/-- a branch result: a bare outcome or a histogram -/
-inductive Br (α : Type) where
-  | out (o : α)
-  | hist (h : Hist α)
-
-/-- one iteration of the loop in `aggregate_weighted`: state = (aggregate_scalar, outcome_counts) -/
-def aggStep (st : Nat × List (α × Nat)) (b : Br α × Nat) : Nat × List (α × Nat) :=
-  match b with
-  | (.out o, cnt) => (st.1, st.2 ++ [(o, cnt * st.1)])
-  | (.hist h, cnt) =>
-    if total h = 0 then st
-    else (st.1 * total h,
-          st.2.map (fun oc => (oc.1, oc.2 * total h))
-            ++ h.map (fun oc => (oc.1, cnt * st.1 * oc.2)))
-
-def aggregate (brs : List (Br α × Nat)) : Nat × List (α × Nat) :=
-  brs.foldl aggStep (1, [])
+abbrev Br := Ret
 
 /-- probability that a branch yields `z` -/
 def brProb (z : α) : Br α → ℚ
@@ -108,5 +93,97 @@ theorem aggregate_count (brs : List (Br α × Nat)) (z : α) :
       = (aggregate brs).1 * (brs.map fun b => (b.2 : ℚ) * brProb z b.1).sum := by
   have := agg_invariant brs (1, []) z 0 (by simp) (by simp)
   simpa [aggregate] using this
+
+end Dyce
+
+namespace Dyce
+open List
+variable {α : Type} [DecidableEq α]
+
+theorem total_map_scale (l : List (α × Nat)) (t : Nat) :
+    total (l.map fun oc => (oc.1, oc.2 * t)) = total l * t := by
+  induction l with
+  | nil => simp [total]
+  | cons b l ih => simp only [List.map_cons, total_cons, ih]; ring
+
+theorem total_map_scale_left (l : List (α × Nat)) (t : Nat) :
+    total (l.map fun oc => (oc.1, t * oc.2)) = t * total l := by
+  induction l with
+  | nil => simp [total]
+  | cons b l ih => simp only [List.map_cons, total_cons, ih]; ring
+
+theorem total_append' (l₁ l₂ : List (α × Nat)) : total (l₁ ++ l₂) = total l₁ + total l₂ := by
+  simp [total]
+
+/-- fold invariant for the total: `total = scalar * Σ cnt_i * kept_i` -/
+theorem agg_invariant_total (brs : List (Br α × Nat)) (st : Nat × List (α × Nat)) (W : ℚ)
+    (hpos : 0 < st.1) (hst : (total st.2 : ℚ) = st.1 * W) :
+    (total (brs.foldl aggStep st).2 : ℚ)
+      = (brs.foldl aggStep st).1 * (W + (brs.map fun b => (b.2 : ℚ) * brKept b.1).sum) := by
+  induction brs generalizing st W with
+  | nil => simp [hst]
+  | cons b brs ih =>
+    obtain ⟨br, cnt⟩ := b
+    simp only [List.foldl_cons, List.map_cons, List.sum_cons]
+    cases br with
+    | out o =>
+      have := ih (aggStep st (.out o, cnt)) (W + (cnt : ℚ) * brKept (.out o))
+        (by simpa [aggStep] using hpos)
+        (by
+          simp only [aggStep, total_append', brKept]
+          have : total [(o, cnt * st.1)] = cnt * st.1 := by simp [total]
+          rw [this]; push_cast; rw [hst]; ring)
+      rw [this]; ring
+    | hist h =>
+      by_cases h0 : total h = 0
+      · have hstep : aggStep st (.hist h, cnt) = st := by simp [aggStep, h0]
+        rw [hstep, ih st W hpos hst]
+        simp [brKept, h0]
+      · have := ih (aggStep st (.hist h, cnt)) (W + (cnt : ℚ) * brKept (.hist h))
+          (by simp only [aggStep, h0, if_false]; exact Nat.mul_pos hpos (Nat.pos_of_ne_zero h0))
+          (by
+            simp only [aggStep, h0, if_false, total_append', brKept]
+            rw [total_map_scale, total_map_scale_left]
+            push_cast
+            rw [hst]; ring)
+        rw [this]; ring
+
+/-- **C06**: the total of the aggregate is `S * Σ_i cnt_i · [branch i is kept]` -/
+theorem aggregate_total (brs : List (Br α × Nat)) :
+    (total (aggregate brs).2 : ℚ)
+      = (aggregate brs).1 * (brs.map fun b => (b.2 : ℚ) * brKept b.1).sum := by
+  have := agg_invariant_total brs (1, []) 0 (by simp) (by simp [total])
+  simpa [aggregate] using this
+
+/-- **C06, the mixture**: whenever some branch with positive weight is kept, the probability of
+`z` in the aggregate is the renormalised mixture `Σ cnt_i·P_i(z) / Σ cnt_i·kept_i` -/
+theorem aggregate_mixture (brs : List (Br α × Nat)) (z : α)
+    (hw : (brs.map fun b => (b.2 : ℚ) * brKept b.1).sum ≠ 0) :
+    (countOf z (aggregate brs).2 : ℚ) / (total (aggregate brs).2 : ℚ)
+      = (brs.map fun b => (b.2 : ℚ) * brProb z b.1).sum
+          / (brs.map fun b => (b.2 : ℚ) * brKept b.1).sum := by
+  obtain ⟨hS, hc⟩ := aggregate_count brs z
+  rw [hc, aggregate_total]
+  have hSq : ((aggregate brs).1 : ℚ) ≠ 0 := by exact_mod_cast (by omega : (aggregate brs).1 ≠ 0)
+  field_simp
+
+/-- **C06**: if every branch is dropped (empty histograms only) the aggregate is empty -/
+theorem aggregate_all_dropped (brs : List (Br α × Nat))
+    (hall : ∀ b ∈ brs, ∃ h, b.1 = Ret.hist h ∧ total h = 0) : (aggregate brs).2 = [] := by
+  unfold aggregate
+  have : ∀ (st : Nat × List (α × Nat)), brs.foldl aggStep st = st := by
+    induction brs with
+    | nil => intro st; rfl
+    | cons b brs ih =>
+      intro st
+      obtain ⟨h, hb, h0⟩ := hall b (by simp)
+      rw [List.foldl_cons]
+      have : aggStep st b = st := by
+        obtain ⟨r, c⟩ := b
+        simp only at hb; subst hb
+        simp [aggStep, h0]
+      rw [this]
+      exact ih (fun b' hb' => hall b' (by simp [hb'])) st
+  rw [this]
 
 end Dyce
